@@ -80,6 +80,10 @@ Strengthenings triggered by seeds.
   C16 is now {none, mle, dynamic, dynamic_relin}; on the unchanged tree every mismatch of the new cases
   is explained by the counterfactual (known finding F6a), with the change the output-scale derivative
   is 0 with and without the exact QR derivative -> VIOLATION.
+* Re-confirmation. After the last changes to the tolerance rules of C01, C02, C03 and to C06's scripted
+  controllers (section 7, false alarms of the thorough tier) the seeds targeting those checks were run
+  again against the final code (scratch worktrees, quick tier): S_C01_a (35 violating cases), S_C01_b (11),
+  S_C02_a (50+), S_C02_b (36), S_C03_a (50+), S_C03_b (50+), S_C06_a (50+), S_C06_b (50+) - all still caught.
 * "not visible to" lists other properties' checks that were also tried: S_C03_a does not change the
   time-series loss (C12 only needs mutually consistent conditionals), S_C05_b is outside C04's
   lattice (no dynamic-scale interpolation), S_C09_b / S_C11_b do not touch what C02 exercises.
